@@ -324,4 +324,44 @@ theorem within_mono {p q ra rb ra' rb' d : Nat} (h : ra + rb ≤ ra' + rb')
   simp only [decide_eq_true_eq] at hw ⊢
   exact Nat.le_trans hw (Nat.mul_le_mul_left _ (Nat.mul_le_mul h h))
 
+/-! ### the integer test is the stated inequality on the real distance -/
+
+theorem sq_le_sq_iff (a b : Nat) : a * a ≤ b * b ↔ a ≤ b := by
+  constructor
+  · intro h
+    apply Classical.byContradiction
+    intro hn
+    have hlt : b < a := by omega
+    have : b * b < a * a := Nat.mul_self_lt_mul_self hlt
+    omega
+  · intro h; exact Nat.mul_le_mul h h
+
+theorem within_below (p q ra rb d2 D s : Nat) (hD : D * D ≤ s * s * d2)
+    (hw : within p q ra rb d2 = true) : 2 * q * D ≤ 10 * p * s * (ra + rb) := by
+  unfold within at hw
+  simp only [decide_eq_true_eq] at hw
+  rw [← sq_le_sq_iff]
+  have h1 : 2 * q * D * (2 * q * D) = 4 * (q * q) * (D * D) := by grind
+  have h2 : 10 * p * s * (ra + rb) * (10 * p * s * (ra + rb))
+      = s * s * (100 * (p * p) * ((ra + rb) * (ra + rb))) := by grind
+  rw [h1, h2]
+  calc 4 * (q * q) * (D * D) ≤ 4 * (q * q) * (s * s * d2) := Nat.mul_le_mul_left _ hD
+    _ = s * s * (4 * (q * q) * d2) := by grind
+    _ ≤ s * s * (100 * (p * p) * ((ra + rb) * (ra + rb))) := Nat.mul_le_mul_left _ hw
+
+theorem within_above (p q ra rb d2 D s : Nat) (hs : 0 < s) (hD : s * s * d2 ≤ D * D)
+    (hle : 2 * q * D ≤ 10 * p * s * (ra + rb)) : within p q ra rb d2 = true := by
+  unfold within
+  simp only [decide_eq_true_eq]
+  rw [← sq_le_sq_iff] at hle
+  have h1 : 2 * q * D * (2 * q * D) = 4 * (q * q) * (D * D) := by grind
+  have h2 : 10 * p * s * (ra + rb) * (10 * p * s * (ra + rb))
+      = s * s * (100 * (p * p) * ((ra + rb) * (ra + rb))) := by grind
+  rw [h1, h2] at hle
+  have h3 : s * s * (4 * (q * q) * d2) ≤ s * s * (100 * (p * p) * ((ra + rb) * (ra + rb))) := by
+    calc s * s * (4 * (q * q) * d2) = 4 * (q * q) * (s * s * d2) := by grind
+      _ ≤ 4 * (q * q) * (D * D) := Nat.mul_le_mul_left _ hD
+      _ ≤ _ := hle
+  exact Nat.le_of_mul_le_mul_left h3 (Nat.mul_pos hs hs)
+
 end C10
